@@ -9,6 +9,7 @@ use e5_harness::*;
 use crate::corpus::*;
 use crate::oracle::*;
 
+#[cfg(stageleft_runtime)]
 pub const META: PropMeta = PropMeta {
     id: "C38",
     quick_runs: 60_000,
@@ -28,10 +29,12 @@ pub const META: PropMeta = PropMeta {
     required_probes: &["replayed_in_process", "replayed_in_child_process"],
 };
 
+#[cfg(stageleft_runtime)]
 fn fingerprint(obs: &Obs) -> String {
     format!("verdict={}\nawaited={}\nrecords={:?}\nlog:\n{}", obs.verdict.text(), obs.awaited, obs.recs, obs.log)
 }
 
+#[cfg(stageleft_runtime)]
 fn first_diff(a: &str, b: &str) -> String {
     for (i, (x, y)) in a.lines().zip(b.lines()).enumerate() {
         if x != y {
@@ -41,6 +44,7 @@ fn first_diff(a: &str, b: &str) -> String {
     format!("lengths {} vs {} lines", a.lines().count(), b.lines().count())
 }
 
+#[cfg(stageleft_runtime)]
 /// Child mode: print one fingerprint hash per requested (scenario, run_seed).
 fn child_mode(flows: &[LazyFlow]) -> bool {
     let Ok(spec) = std::env::var("VERIF_E5_CHILD") else { return false };
@@ -57,6 +61,7 @@ fn child_mode(flows: &[LazyFlow]) -> bool {
     true
 }
 
+#[cfg(stageleft_runtime)]
 fn run_child(items: &[(String, u64, Option<Vec<u8>>)]) -> Result<BTreeMap<(String, u64), String>, String> {
     let exe = std::env::current_exe().map_err(|e| e.to_string())?;
     let spec: Vec<String> = items.iter().map(|(n, s, b)| format!("{n},{s},{}", b.as_ref().map(|b| if b.is_empty() { "00".to_string() } else { hex(b) }).unwrap_or_else(|| "-".into()))).collect();
@@ -88,8 +93,10 @@ fn run_child(items: &[(String, u64, Option<Vec<u8>>)]) -> Result<BTreeMap<(Strin
     Ok(m)
 }
 
+#[cfg(stageleft_runtime)]
 type Pending = std::sync::Mutex<Vec<(String, u64, u64, String)>>;
 
+#[cfg(stageleft_runtime)]
 pub fn run_one(flow: &Flow, inp: &RunIn<'_>, pending_child: &Pending) -> RunOut {
     let kind = flow.kind;
     let steps = workload(kind, inp.run_seed);
@@ -133,6 +140,7 @@ pub fn run_one(flow: &Flow, inp: &RunIn<'_>, pending_child: &Pending) -> RunOut 
     out
 }
 
+#[cfg(stageleft_runtime)]
 #[test]
 fn e2e_c38() {
     let Some(cfg) = cfg_for("C38") else { return };
